@@ -28,7 +28,7 @@ ASSUMPTIONS = STRUCT_ASSUMPTIONS
 
 
 def budget(tier):
-    return dict(examples=5000 if tier == 'quick' else 300000)
+    return dict(examples=5000 if tier == 'quick' else 250000)
 
 
 leaf = st.one_of(st.none(), st.tuples(st.just('J'), st.integers(0, 9)),
